@@ -22,7 +22,8 @@ import (
 // Scenario is one closed harness explored under the scheduler.
 type Scenario struct {
 	Name  string
-	Bound int // deviation bound
+	Group string // scenarios with the same Group are reported together in the evidence (default: Name)
+	Bound int    // deviation bound
 	// Body runs as goroutine 0 under the scheduler; it returns the observation of
 	// this execution (any value; nil if the execution was cut off before returning).
 	Body func() any
@@ -82,11 +83,12 @@ func deadlockClass(blocked []string) string {
 }
 
 type result struct {
-	Stats    map[string]sched.Stats `json:"stats"`
-	Findings []Finding              `json:"findings"`
-	Outcomes map[string]int64       `json:"outcomes"`
-	Flaky    int                    `json:"flaky"`
-	Samples  []string               `json:"samples"`
+	Stats     map[string]sched.Stats `json:"stats"`
+	Findings  []Finding              `json:"findings"`
+	Outcomes  map[string]int64       `json:"outcomes"`
+	Flaky     int                    `json:"flaky"`
+	Scenarios int                    `json:"scenarios"`
+	Samples   []string               `json:"samples"`
 }
 
 // runOne executes one schedule of sc and returns (exec record, observation).
@@ -127,10 +129,19 @@ func judge(sc *Scenario, x *sched.Exec, obs any) (class, detail string) {
 func worker(scs []Scenario, shard, n int, stop func() bool) result {
 	res := result{Stats: map[string]sched.Stats{}, Outcomes: map[string]int64{}}
 	seenClass := map[string]bool{}
+	// Many small scenarios are spread over the workers whole; few big ones are
+	// split by level-1 subtrees.
+	byScenario := len(scs) >= 4*n
 	for i := range scs {
 		sc := &scs[i]
 		var obs any
 		e := &sched.Explorer{Bound: sc.Bound, Shard: shard, NShards: n, Stop: stop}
+		if byScenario {
+			if i%n != shard {
+				continue
+			}
+			e.Shard, e.NShards = 0, 1
+		}
 		e.Body = func() { obs = nil; obs = sc.Body() }
 		e.OnExec = func(x *sched.Exec) {
 			o := obs
@@ -175,7 +186,14 @@ func worker(scs []Scenario, shard, n int, stop func() bool) result {
 			res.Findings = append(res.Findings, Finding{Scenario: sc.Name, Class: final, Detail: detail, Schedule: sch, Repro: repro})
 		}
 		e.Explore()
-		res.Stats[sc.Name] = e.Stats
+		g := sc.Group
+		if g == "" {
+			g = sc.Name
+		}
+		st := res.Stats[g]
+		mergeStats(&st, e.Stats)
+		res.Stats[g] = st
+		res.Scenarios++
 	}
 	return res
 }
@@ -232,6 +250,7 @@ func Explore(c *vf.Ctx, scs []Scenario) {
 	total := map[string]*sched.Stats{}
 	seen := map[string]bool{}
 	flaky := 0
+	nscen := 0
 	for _, r := range results {
 		for name, st := range r.Stats {
 			t := total[name]
@@ -251,6 +270,7 @@ func Explore(c *vf.Ctx, scs []Scenario) {
 			c.Sample(sm)
 		}
 		flaky += r.Flaky
+		nscen += r.Scenarios
 		for _, f := range r.Findings {
 			key := f.Scenario + "|" + f.Class
 			if seen[key] {
@@ -283,6 +303,7 @@ func Explore(c *vf.Ctx, scs []Scenario) {
 		}
 	}
 	c.Set("scenarios", per)
+	c.Set("scenario_runs", nscen)
 	c.Set("workers", nw)
 	if flaky > 0 {
 		c.Set("unreproducible_verdicts_discarded", flaky)
